@@ -3,6 +3,7 @@
 From Coq Require Import String.
 From Verif Require Import Base.Str Base.Lines Base.Outcome Model.Patterns Model.ParseLine Model.Format Proofs.FormatProofs Proofs.FormatIdemProofs Proofs.FormatDefLineProofs Proofs.FormatIncLineProofs.
 From Verif Require Import Gen.Consts.
+From Verif Require Model.RuleId Model.Update Model.Renumber Model.Cli Proofs.CliProofs Proofs.CliCheckProofs.
 From Verif Require Tie.Pin_standard_header Tie.Pin_lits_cmd_regex_format_processLine
   Tie.Pin_lits_cmd_regex_format_formatEndOfFile Tie.Pin_lits_cmd_regex_format_checkStandardHeader
   Tie.Pin_lits_cmd_regex_format_processFile Tie.Pin_lits_cmd_regex_format_processAll
@@ -110,3 +111,10 @@ Theorem C09_include_line_example :
   m_include $"##!>  include   words-1.ra   --   @   [\s<>]  ~  x  " = Some ($"words-1.ra", $"@   [\s<>]  ~  x") /\
   m_include $"##!> include words-1.ra -- @   [\s<>]  ~  x" = Some ($"words-1.ra", $"@   [\s<>]  ~  x").
 Proof. exact include_line_example. Qed.
+
+(* --check agrees with format, whole command on the tree model: `format --all --check` succeeds
+   exactly when `format --all` would succeed and leave every file byte-identical *)
+Theorem C09_check_agrees_with_format : forall fmt files t, NoDup files ->
+  (Cli.format_check_all fmt files t = Cli.Success <-> Cli.format_all fmt files t = (t, Cli.Success)).
+Proof. exact CliCheckProofs.format_check_agrees_with_format. Qed.
+Print Assumptions C09_check_agrees_with_format.
